@@ -126,6 +126,9 @@ def run(ctx, host=None):
     chk.require(nviews >= 3, f'expected at least 3 public views with their own index query (list_all_objects, count_objects, get_total_size, ...), found {nviews}')
     chk.require(any(r['instances'] for k, r in chk.rules.items() if k == R2), 'list_all_objects was not analysed')
 
+    # every public key view answers through the funnel (the only place that has the refresh-and-retry fallback): shared call-graph rule of C02.R1
+    from .c02 import key_views_funnel_only
+    key_views_funnel_only(ctx, chk, R3, S)
     # no memoised reader of files / the index behind any public method of the container (a cached answer is a stale answer for a long-open handle)
     from .common import memoised_external_readers, reachable_functions
     memo = memoised_external_readers(ctx, S)
